@@ -73,6 +73,7 @@ structure St where
   spawned : Nat                        -- its n_children_spawned
   mainDraws : Nat                      -- draws consumed from the scheduler stream since its (re)seed
   restarted : Bool                     -- 'restarted_from' in config['current']
+  rgenRestored : Bool := false         -- `_rgen_restored`: scheduler stream state restored after the restart
 deriving Repr, DecidableEq
 
 def off : Nat := 1
@@ -188,15 +189,21 @@ def pick (s : St) (o : PickOutcome) : Except Err (St × List Picked × List Draw
       .ok ({ s1 with locked := s1.locked ++ [entry], spawned := s1.spawned + 1,
                      mainDraws := s1.mainDraws + drawCount ds }, ps, ds)
 
-/-- `set_rgen()`: SeedSequence(entropy = 0, n_children_spawned = cstep), state from the restart file -/
+/-- `set_rgen()` (called by `__init__` on a restart): SeedSequence(entropy = configured seed,
+    n_children_spawned = cstep + number of recorded in-flight jobs), state from the restart file -/
 def setRgen (s : St) (savedDraws : Nat) : St :=
-  { s with entropy := 0, spawned := s.cstep, mainDraws := savedDraws }
+  { s with entropy := s.seed, spawned := s.cstep + s.locked0.length, mainDraws := savedDraws }
+
+/-- the one-time restore of the scheduler stream's bit-generator state in `pick_lock`
+    (the spawn counter is left alone) -/
+def restoreStreamOnce (s : St) (savedDraws : Nat) : St :=
+  if s.restarted ∧ s.rgenRestored = false then { s with mainDraws := savedDraws, rgenRestored := true } else s
 
 def findIdx? {α : Type} [DecidableEq α] (l : List α) (x : α) : Option Nat :=
   let i := l.findIdx (· == x)
   if i < l.length then some i else none
 
-/-- the re-issue branch of `pick_lock`: re-lock one recorded job (NOT appended to `locked`) -/
+/-- the re-issue branch of `pick_lock`: re-lock one recorded job -/
 def reissue (s : St) (enss0 trajs0 : List Nat) : Except Err (St × List (Int × Option Nat)) :=
   let rec go (s : St) : List (Nat × Nat) → Except Err (St × List (Int × Option Nat))
     | [] => .ok (s, [])
@@ -216,14 +223,17 @@ def reissue (s : St) (enss0 trajs0 : List Nat) : Except Err (St × List (Int × 
 /-- `pick_lock()`; `savedDraws` = the main-stream position stored in the restart file -/
 def pickLock (s : St) (o : PickOutcome) (savedDraws : Nat) : Except Err (St × List Picked × List Draw) :=
   match s.locked0 with
-  | [] => pick (if s.restarted then setRgen s savedDraws else s) o
+  | [] => pick (restoreStreamOnce s savedDraws) o
   | (enss0, trajs0) :: rest =>
     match reissue { s with locked0 := rest } enss0 trajs0 with
     | .error er => .error er
     | .ok (s1, pairs) =>
       match mkPicked s1 pairs with
       | .error er => .error er
-      | .ok ps => .ok ({ s1 with spawned := s1.spawned + 1 }, ps, [])
+      | .ok ps =>
+        -- `self.locked.append((enss, trajs0))`: the re-issued job stays on record
+        let entry : List Int × List Nat := (enss0.map (fun (e : Nat) => ((e : Int) - (off : Int))), trajs0)
+        .ok ({ s1 with spawned := s1.spawned + 1, locked := s1.locked ++ [entry] }, ps, [])
 
 /-! ### engines -/
 
@@ -408,7 +418,10 @@ def treatOutput (s : St) (job : Job) (status : Status) (newW : List (List Rat)) 
             match perEns s3 tn rest with
             | .error er => .error er
             | .ok (s4, tn', pns) => .ok (s4, tn', p.pn :: pns)
-  match perEns s s.trajNum (job.picked.zip newW) with
+  -- one trial weight vector per picked ensemble (ignored on rejection)
+  let ws := if status = .acc then newW else job.picked.map (fun _ => [])
+  if ws.length ≠ job.picked.length then .error .index else
+  match perEns s s.trajNum (job.picked.zip ws) with
   | .error er => .error er
   | .ok (s1, tn, pnNews) =>
     match recordFrac s1 with
@@ -469,6 +482,9 @@ inductive Ev
       with `status` and, for ACC, the new weight vectors; then, iff
       `cstep + workers ≤ tsteps`, the same worker is given a new job drawn with outcome `o` -/
   | step (k : Nat) (status : Status) (newW : List (List Rat)) (o : PickOutcome)
+  /-- the last `state.initiate()` call, the one that answers `False` and closes the first loop
+      (it still updates `cworker` and brings `toinitiate` to -1) -/
+  | initDone
 deriving Repr
 
 /-- fuel given to `sort_trajstate` by the scheduler model: n² + 4 iterations -/
@@ -481,6 +497,9 @@ def sysStep (y : Sys) : Ev → Except Err Sys
     match prep s1 none o saved with
     | .error er => .error er
     | .ok (s2, job, _) => .ok { s := s2, jobs := y.jobs ++ [job] }
+  | .initDone =>
+    let (s1, go) := initiate y.s
+    if go then .error .value else .ok { y with s := s1 }
   | .step k status newW o =>
     let (s1, go) := loop y.s
     if ¬ go then .error .value else
@@ -513,7 +532,7 @@ def blank (n workers tsteps cstep trajNum seed : Nat) (occ : List (List Int)) (e
     locks := List.replicate n true, locked := [], locked0 := locked0, toinitiate := (workers : Int),
     workers := workers, cworker := 0, cstep := cstep, tsteps := tsteps, trajNum := trajNum,
     frac := [], wts := [], rows := [], occ := occ, ensEng := ensEng, seed := seed,
-    entropy := if restarted then 0 else seed, spawned := if restarted then cstep else 0,
+    entropy := seed, spawned := if restarted then cstep + locked0.length else 0,
     mainDraws := 0, restarted := restarted }
 
 /-- load one path as `load_paths` does: add_traj(count=False) then the traj_data entry -/
